@@ -247,9 +247,10 @@ def ob_proj_ineq(sysname, vname):
         ref = hs_columns_ref(lambda rho: np.asarray(gksl_hk(H, None, B, rho), dtype=object) + acomm(J, rho)
                              + np.asarray(gksl_dissipative_no_j(Kp, B, rho), dtype=object), B, sysname)
         allpos = s_and([SBool.of(x >= 0) for x in w])
-        d0 = np.asarray(P.hs, dtype=object) - np.asarray(L.hs, dtype=object)
-        return [Eq("projection == build(H, J, K+)", P.hs, ref.real, 1e-6),
-                Holds("K >= 0 => unchanged", implies(allpos, s_and([SBool.of(Sym.of(e) <= 1e-6) & SBool.of(Sym.of(e) >= -1e-6) for e in d0.reshape(-1)])))]
+        out = [Eq("projection == build(H, J, K+)", P.hs, ref.real, 1e-6)]
+        if bool(allpos):        # the routine has already split on the signs of the eigenvalues: no new paths
+            out.append(Eq("K >= 0 => unchanged", P.hs, L.hs, 1e-6))
+        return out
     return FnOb(herm_inputs("h", d) + [(f"w{i}", "real", -BOX, BOX) for i in range(n - 1)], run,
                 assume=lambda I: stubs.ascending([I[f"w{i}"] for i in range(n - 1)]), max_paths=300, eager_ite=True, solver_timeout_ms=40000,
                 stubs=["np.linalg.eig: spectral parametrisation of K, frame " + vname],
@@ -300,8 +301,8 @@ def obligations(tier):
     names3 = [nm for nm, _ in refs.unitary_library(3)]
     for vn in tiers(tier, names3[-1:], names3):
         out += specs("C18.verdict.cp", [{"sysname": "Q1", "vname": vn}], ob_verdict_cp, 4)
-    # the non-trivial frames need minutes of LRA over nested ITEs: thorough tier; quick uses the diagonal frame
-    for vn in tiers(tier, ["id"], names3):
+    # quick: the diagonal frame and the complex frame (K with imaginary off-diagonal entries); thorough: all frames
+    for vn in tiers(tier, ["id", "cplx+1"], names3):
         out += specs("C18.proj.ineq", [{"sysname": "Q1", "vname": vn}], ob_proj_ineq, 6)
     return out
 
